@@ -117,6 +117,11 @@ def from_gen(g):
     return cls(**kw)
 
 
+def strip_ctx(g):
+    """generic tree with the expr_context dropped from every label"""
+    return [re.sub(r"(, )?ctx='\w+'", '', g[0]).replace('(, ', '('), [strip_ctx(k) for k in g[1]]]
+
+
 def gen_key(g):
     return json.dumps(g, separators=(',', ':'))
 
@@ -324,7 +329,7 @@ def intern_env(env, I):
 def make_pattern(spec):
     import fst.match as fm
     ns = {k: getattr(fm, k) for k in dir(fm) if k.startswith('M')}
-    ns.update({'Load': ast.Load, 'Store': ast.Store})
+    ns.update({'Load': ast.Load, 'Store': ast.Store, 'Del': ast.Del, 'Name': ast.Name, 'Attribute': ast.Attribute})
     return eval(spec, ns)
 
 
@@ -671,7 +676,7 @@ def settings(rng, full=False):
 
 def setting_name(s):
     return (f'{s["on"]},{"nested" if s["nested"] else "flat"},{"count" if s["count"] else "all"},'
-            f'{"loop" if s["loop"] is not False else "once"}')
+            f'{"loop" if s["loop"] is not False else "once"}' + (',ctx' if s.get('ctx') else ''))
 
 
 def gen_jobs(rng, n, string_slots=True):
@@ -880,4 +885,40 @@ def gen_arglike_jobs(rng, n):
         if rng.random() < 0.5:
             st['loop'] = False
         jobs.append({'src': src, 'shape': shape, 'cat': cat, 'pat': spec, 'placement': placement, 'tmpl': tm, 'set': st})
+    return jobs
+
+
+# ---------------------------------------------------------------------------------------------------------------------
+# expr_context: the same names in Load / Store / Del positions, patterns whose ctx INSTANCE discriminates only with ctx=True
+
+CTX_PATTERNS = [
+    ('node', 'expr', 'Name("{n}", Load())', {}), ('node', 'expr', 'Name("{n}", Store())', {}),
+    ('node', 'expr', 'Name("{n}", Del())', {}), ('node', 'expr', 'MName(ctx=Load())', {}),
+    ('node', 'expr', 'MName("{n}", ctx=Store())', {}), ('tags', 'expr', 'MAttribute(value=M(v=...), ctx=Load())', {'v': 'E'}),
+    ('tags', 'expr', 'MSubscript(value=M(v=...), ctx=Store())', {'v': 'E'}),
+]
+CTX_TEMPLATES = [('value', 'o.r'), ('value', 'w[0]'), ('value', '{W}.q'), ('value', 'w[{W}]'), ('root-whole', '{W}')]
+
+
+def ctx_program(rng):
+    names = ['a', 'b', 'x', 'total']
+    n = lambda: rng.choice(names)
+    forms = ['{n} = {m}', '{n} += {m}', 'r = [{n}, {n} + 1]', 'del {n}', '({n}, other) = pair', 'print({n}, o.{n})',
+             'for {n} in {m}:\n    use({n})', '{n}.p = {m}.p', '{n}[0] = {m}[1]', 'del {n}.p, {m}[0]', 'with c as {n}:\n    {m}']
+    return '\n'.join(rng.choice(forms).format(n=n(), m=n()) for _ in range(rng.randint(3, 7)))
+
+
+def gen_ctx_jobs(rng, n):
+    jobs = []
+    while len(jobs) < n:
+        shape, cat, spec, tagkinds = rng.choice(CTX_PATTERNS)
+        spec = spec.replace('{n}', rng.choice(['a', 'b', 'x', 'total']))
+        placement, fmt = rng.choice(CTX_TEMPLATES)
+        tm = make_template(rng, fmt, tagkinds, cat)
+        if tm is None:
+            continue
+        st = {'nested': rng.random() < 0.3, 'on': 'leave' if rng.random() < 0.25 else 'enter',
+              'count': rng.choice([0, 0, 0, 2]), 'loop': False, 'ctx': rng.random() < 0.7}
+        jobs.append({'src': ctx_program(rng), 'shape': shape, 'cat': cat, 'pat': spec, 'placement': 'ctx-' + placement,
+                     'tmpl': tm, 'set': st})
     return jobs
